@@ -561,7 +561,13 @@ def c02_file_state(ctx):
     from rules.c05 import c05_5
     c05_5(ctx)
 
-RULES = [c02_predefined, c02_1, c02_2, c02_3, c02_4, c02_5, c02_6, c02_macro_sizes, c02_zone_of_line, c02_state, c02_file_state]
+def c02_label_names(ctx):
+    """A label has the value of its address wherever it is referred to - provided a reference to it is read as a label at all (C06.3)."""
+    from rules.c06 import c06_3
+    c06_3(ctx)
+
+
+RULES = [c02_predefined, c02_1, c02_2, c02_3, c02_4, c02_5, c02_6, c02_macro_sizes, c02_zone_of_line, c02_state, c02_file_state, c02_label_names]
 
 _E = 'assembler/engine.py'
 _FD = 'assembler/line_object/directive_line/fill_data.py'
